@@ -573,6 +573,21 @@ func listCase(sc *Scenario) {
 	for _, x := range reg.Log {
 		if x.HasLink {
 			run.Count(fmt.Sprintf("link_variant_%d", x.Dec.Variant%fakereg.NumLinkVariants))
+			if len(x.Dec.RawPairs) > 0 {
+				run.Count("link_raw_pairs")
+			}
+			if x.TPath != x.Path {
+				run.Count("link_other_path")
+			}
+			if x.Dec.PreFirst != 0 {
+				run.Count("link_rel_first_stream")
+			}
+			if len(x.Links) > 1 || len(x.Dec.PostSame) > 0 {
+				run.Count("link_further_values")
+			}
+		}
+		if x.Status == 200 && x.JSONOK && (x.Dec.LeadWS > 0 || x.Dec.TrailDoc || (x.Dec.NullBody != 0 && len(x.Page) == 0)) {
+			run.Count("json_shape_variant")
 		}
 	}
 	if len(reg.Log) > 1 || outcome != "Done" {
@@ -1861,5 +1876,41 @@ func main() {
 	// content/oci
 	for i := 0; i < run.Scale(150, 4000); i++ {
 		genOci(r)
+	}
+	coverageFloors()
+}
+
+// coverageFloors: a generated run in which one of the input streams is (nearly) empty must not pass
+// silently -- the harness then exits non-zero, which bin/check reports as a broken layer R.
+func coverageFloors() {
+	sum := func(prefix string) int {
+		n := 0
+		for k, v := range run.Dist {
+			if strings.HasPrefix(k, prefix) {
+				n += v
+			}
+		}
+		return n
+	}
+	floors := map[string]int{
+		"cursor_opaque": 100, "link_raw_pairs": 50, "link_other_path": 50, "link_further_values": 100, "link_rel_first_stream": 5,
+		"list_link_missing_midway": 5, "json_shape_variant": 100, "registry_page": 1000, "exhaustive": 200,
+		"link_variant_0": 100, "link_variant_1": 100, "link_variant_2": 100, "link_variant_3": 100, "link_variant_4": 100,
+		"list_T_": 1000, "list_K_": 500, "list_R_": 1000, "list_T_ErrCallback": 5, "list_R_ErrDecode": 5, "list_K_ErrLink": 3,
+		"wrap_U_": 300, "wrap_S_": 50, "wrap_N_": 50, "ping_": 100, "tagschema_": 200, "tagschema_dirty_index": 30, "tagschema_ErrSize": 10,
+		"oci_tags": 100, "oci_tags_readonly": 100, "oci_tags_reopened": 10, "body_OK": 10, "body_ERR": 10, "parse_link_": 100,
+		"filter_applied_": 30, "filter_referrers": 30, "limit_size_": 30,
+	}
+	var low []string
+	for k, want := range floors {
+		if got := sum(k); got < want {
+			low = append(low, fmt.Sprintf("%s: %d < %d", k, got, want))
+		}
+	}
+	if len(low) > 0 {
+		sort.Strings(low)
+		run.Finish()
+		fmt.Fprintln(os.Stderr, "C15 harness: input streams below their coverage floor: "+strings.Join(low, "; "))
+		os.Exit(3)
 	}
 }
